@@ -190,7 +190,8 @@ class KernelSym(Evaluator):
             return v
         raise Unsupported("undecided test %s" % (norm(node) if node is not None else v))
 
-    NEGATED = {"<=": "not <=", "<": "not <", ">=": "not >=", ">": "not >", "not <=": "<=", "not <": "<", "not >=": ">=", "not >": ">"}
+    NEGATED = {"<=": "not <=", "<": "not <", ">=": "not >=", ">": "not >", "not <=": "<=", "not <": "<", "not >=": ">=", "not >": ">",
+               "isnan": "not isnan", "not isnan": "isnan", "isfinite": "not isfinite", "not isfinite": "isfinite"}
 
     def ev_UnaryOp(self, node):
         if isinstance(node.op, ast.Not):
@@ -255,6 +256,9 @@ class KernelSym(Evaluator):
                     return Wrapped("floor", args[0])
                 if d == "numpy.nan":
                     return "nan"
+                if d in ("numpy.isnan", "math.isnan", "numpy.isfinite", "math.isfinite") and len(args) == 1:
+                    # a test on a VALUE (not on the geometry): kept as a condition of whatever it guards
+                    return Cmp(d.split(".")[-1], args[0], None)
                 if d in ("numba.prange",):
                     return ("range",) + tuple(args)
                 if d in ("numba.get_num_threads", "numba.np.ufunc.parallel.get_num_threads"):
